@@ -10,7 +10,9 @@ Every verdict "violated" in this file is a concrete counterexample:
     (cv_.wait / the spin on the generation counter).  The evidence is the schedule and the values.
 Fields are found by their type, not by their name.
 Nothing is concluded from the shape of the code: statement order, names of locals, helper functions, loop forms, operand
-order are invisible to the evaluation.  A construct the evaluation does not understand (unknown call that receives the
+order, the carrier of a value (local, field of a small struct, std::pair / std::tuple / std::tie, out-parameter) are
+invisible to the evaluation.  An access to the guarded state through a pointer / reference is checked against the lock
+state at the place of the access, like the member expressions themselves.  A construct the evaluation does not understand (unknown call that receives the
 object, unknown atomic operation, data-dependent branch) raises Undecidable (exit 2)."""
 import os
 
@@ -107,6 +109,23 @@ def _mutex(t):
     return t.endswith("mutex")
 
 
+def _scalar(t):
+    t = t.strip()
+    if t.endswith("const"):
+        t = t[:-5].strip()
+    if t.startswith("const "):
+        t = t[6:].strip()
+    if t.endswith("*"):                    # a pointer to a scalar is carried like a number
+        return not t.endswith("**") and _scalar(t[:-1])
+    return _uint(t) or t in ("bool", "int", "long", "long long", "short", "unsigned short", "char", "unsigned char", "signed char",
+                             "ptrdiff_t", "std::ptrdiff_t", "ssize_t", "uint64_t", "uint32_t", "int64_t", "int32_t", "std::uint64_t",
+                             "std::uint32_t", "std::int64_t", "std::int32_t")
+
+
+def _is_rec(v):
+    return isinstance(v, tuple) and len(v) == 3 and v[0] == "rec"
+
+
 def _atomic_uint(t):
     return "atomic<" in t and _uint(t[t.index("atomic<") + 7:].rstrip("> "))
 
@@ -140,6 +159,8 @@ class Sim(skel.Skel):
         self.world = world
         self.cur = None
         self.tid = None
+        self.cur_e = None
+        self.plain = {}
 
     def arith(self, op, a, b, e):
         r = skel.Skel.arith(self, op, a, b, e)
@@ -151,9 +172,171 @@ class Sim(skel.Skel):
         n = node if node is not None and node.get("l") is not None else self.cur
         return self.fn.nloc(n) if n is not None else self.fn.loc
 
+    # ---- small structs: a local / returned object of a plain record type (no bases, no user-declared members, scalar
+    # fields) is the value ("rec", type, ((field, value), ...)); obj.f is read from and written into that value.  A field
+    # that was never written is None (data) like an uninitialised local.
+    def plain_record(self, ty):
+        """names of the fields if ty is such a record, else None"""
+        t = ir._bare(ty)
+        if t not in self.plain:
+            fs = None
+            rs = [r for r in self.tu.records if t in (r.get("full"), r.get("qname"))] if self.tu is not None and t else []
+            shapes = {tuple((f.get("name"), f.get("ty")) for f in r.get("fields") or ()) for r in rs}    # a struct local to a template: one record per instance
+            if rs and len(shapes) == 1 and not any(r.get("bases") or r.get("methods") for r in rs) and rs[0].get("fields") and \
+                    all(_scalar(f.get("ty") or "") and f.get("name") for f in rs[0]["fields"]):
+                fs = tuple(f["name"] for f in rs[0]["fields"])
+            self.plain[t] = fs
+        return self.plain[t]
+
+    def member_base(self, x):
+        """obj of obj.f / p->f, unless the object is *this"""
+        if x is None or x["k"] != "MemberExpr" or not kids(x) or kids(x)[0] is None or match.this_field(x):
+            return None
+        b = strip_casts(kids(x)[0])
+        while b is not None and b["k"] == "ParenExpr":
+            b = strip_casts(kids(b)[0])
+        return b
+
+    def lvalue(self, e):
+        x = strip_casts(e)
+        while x is not None and x["k"] == "ParenExpr":
+            x = strip_casts(kids(x)[0])
+        b = self.member_base(x)
+        if b is None:
+            return skel.Skel.lvalue(self, e)
+        if x.get("arrow"):
+            p = self.ev(b)
+            bk = p[1] if isinstance(p, tuple) and len(p) == 2 and p[0] == "ptr" else None
+        else:
+            bk = self.lvalue(b)
+        return ("sub", bk, x["member"]) if bk is not None else None
+
+    def load(self, key):
+        if isinstance(key, tuple) and len(key) == 3 and key[0] == "sub":
+            b = self.load(key[1])
+            if _is_rec(b):
+                for n, v in b[2]:
+                    if n == key[2]:
+                        return v
+            return None
+        if _is_shared(key) and key[0] != "meta":
+            self.world.on_access(self, key, self.place())
+        return skel.Skel.load(self, key)
+
+    def place(self):
+        """the expression (else the statement) of the running function that is being evaluated, None if that is not known"""
+        for n in (self.cur_e, self.cur):
+            if n is not None and n.get("id") is not None and self.fn.byid(n["id"]) is n:
+                return n
+        return None
+
+    def ev(self, e):
+        """keeps track of the innermost expression under evaluation: the place of an access through a pointer / a reference"""
+        prev = self.cur_e
+        if e is not None and e.get("l") is not None:
+            self.cur_e = e
+        try:
+            return self.ev_(e)
+        finally:
+            self.cur_e = prev
+
+    def ev_(self, e):
+        x = match.strip_conv(e)
+        while x is not None and x["k"] in ("ParenExpr", "ExprWithCleanups", "MaterializeTemporaryExpr", "CXXBindTemporaryExpr") and kids(x):
+            x = match.strip_conv(kids(x)[0])
+        if x is None or const_int(x) is not None:
+            return skel.Skel.ev(self, e)
+        if x["k"] == "CXXDefaultInitExpr" and len(kids(x)) == 1:      # the default member initialiser stands for the element
+            return self.ev(kids(x)[0])
+        if x["k"] == "ImplicitValueInitExpr" and _scalar(x.get("ty") or ""):
+            return False if ir._bare(x.get("ty")) == "bool" else 0
+        b = self.member_base(x)
+        if b is not None:
+            named = not x.get("arrow") and ("callee" not in b or match.index_parts(b) or match.deref_of(b)) and b["k"] != "InitListExpr"
+            if x.get("arrow") or named:
+                key = self.lvalue(x)         # evaluates what the object expression has to evaluate
+                return self.load(key) if key is not None else None
+            bv = self.ev(b)                  # a temporary: helper().f
+            return dict(bv[2]).get(x["member"]) if _is_rec(bv) else None
+        if x["k"] in ("CXXConstructExpr", "CXXTemporaryObjectExpr") and not [a for a in kids(x) if a is not None and a["k"] != "DefaultArg"]:
+            fs = self.plain_record(x.get("ty"))
+            if fs is not None:               # default-initialised: the fields hold nothing yet
+                return ("rec", ir._bare(x.get("ty")), tuple((n, None) for n in fs))
+        r = self.std_tuple(x)
+        if r is not NotImplemented:
+            return r
+        if x["k"] == "InitListExpr":
+            fs = self.plain_record(x.get("ty"))
+            if fs is not None:
+                vals = [self.ev(a) for a in kids(x)]          # one per field, in the order of the fields (= the order written)
+                if len(vals) != len(fs):
+                    raise dtable.Undecidable("%s: initialiser list does not have one element per field of the record" % self.here(x))
+                return ("rec", ir._bare(x.get("ty")), tuple(zip(fs, vals)))
+        return skel.Skel.ev(self, e)
+
+    def args_in_any_order(self, x, args):
+        """values of function arguments; the order in which a compiler evaluates them is not fixed, so at most one of them
+        may do something the model observes"""
+        vals, acting = [], 0
+        for a in args:
+            t0 = self.world.shared[("meta", "tick")]
+            vals.append(self.ev(a))
+            acting += self.world.shared[("meta", "tick")] != t0
+        if acting > 1:
+            raise dtable.Undecidable("%s: several arguments of one call act on the synchronisation state: their order of evaluation is unspecified" % self.here(x))
+        return vals
+
+    def std_tuple(self, x):
+        """std::pair / std::tuple of scalars as carriers of a few values: make_pair, make_tuple, pair(a, b), tie(x, y) = value,
+        get<I>(value); .first / .second are fields of the value"""
+        if "callee" not in x:
+            return NotImplemented
+        c = x["callee"]
+        qn = c.get("qname") or ""
+        args = [a for a in kids(x) if a is not None and a["k"] != "DefaultArg"]
+        ty = ir._bare(x.get("ty"))
+        plain_args = all(_scalar(ir._bare(strip_casts(a).get("ty"))) or _scalar(ir._bare(a.get("ty"))) for a in args)
+        if qn == "std::make_pair" and len(args) == 2 and plain_args:
+            return ("rec", "std::pair", tuple(zip(("first", "second"), self.args_in_any_order(x, args))))
+        if qn == "std::make_tuple" and args and plain_args:
+            return ("rec", "std::tuple", tuple((str(i), v) for i, v in enumerate(self.args_in_any_order(x, args))))
+        if x["k"] in ("CXXConstructExpr", "CXXTemporaryObjectExpr") and ty.startswith("std::pair<") and len(args) == 2 and plain_args:
+            return ("rec", "std::pair", tuple(zip(("first", "second"), self.args_in_any_order(x, args))))
+        if x["k"] in ("CXXConstructExpr", "CXXTemporaryObjectExpr") and ty.startswith("std::tuple<") and len(args) >= 2 and plain_args:
+            return ("rec", "std::tuple", tuple((str(i), v) for i, v in enumerate(self.args_in_any_order(x, args))))
+        if qn == "std::tie" and args:
+            keys = tuple(self.lvalue(a) for a in args)
+            if any(k is None for k in keys):
+                raise dtable.Undecidable("%s: std::tie of something that is not a named object" % self.here(x))
+            return ("tie", keys)
+        if x["k"] == "CXXOperatorCallExpr" and x.get("op") == "=" and c.get("record") == "std::tuple" and len(args) == 2:
+            t = match.strip_conv(args[0])
+            if t is not None and "callee" in t and t["callee"].get("qname") == "std::tie":
+                v = self.ev(args[1])         # the right-hand side of an assignment is evaluated first (C++17); tie() itself does nothing
+                lhs = self.ev(t)
+                if not _is_rec(v) or v[1] not in ("std::pair", "std::tuple") or len(v[2]) != len(lhs[1]):
+                    raise dtable.Undecidable("%s: assignment to std::tie from a value that is not understood" % self.here(x))
+                for k, (n, fv) in zip(lhs[1], v[2]):
+                    self.store(k, fv)
+                return lhs
+            return NotImplemented
+        if qn == "std::get" and len(args) == 1:
+            ta = c.get("targs") or []
+            v = self.ev(args[0])
+            idx = str(ta[0]).rstrip("uUlL") if ta else ""
+            if _is_rec(v) and v[1] in ("std::pair", "std::tuple") and idx.isdigit() and int(idx) < len(v[2]):
+                return v[2][int(idx)][1]
+            return None
+        return NotImplemented
+
     def store(self, key, v):
         if key is None:
             raise dtable.Undecidable("%s: assignment through an lvalue that is not understood" % self.here())
+        if isinstance(key, tuple) and len(key) == 3 and key[0] == "sub":
+            b = self.load(key[1])
+            if not _is_rec(b) or key[2] not in dict(b[2]):
+                raise dtable.Undecidable("%s: assignment to a member of an object that is not understood" % self.here())
+            return self.store(key[1], ("rec", b[1], tuple((n, v if n == key[2] else o) for n, o in b[2])))
         if isinstance(v, int) and not isinstance(v, bool) and _is_shared(key):
             v %= M64
         old = self.load(key)
@@ -169,7 +352,11 @@ class Sim(skel.Skel):
             for v in kids(s):
                 if v["k"] == "VarDecl" and is_guard_ty(v.get("ty")):
                     self.world.on_guard(self, v)
-        skel.Skel.stmt(self, s)
+        prev, self.cur_e = self.cur_e, None
+        try:
+            skel.Skel.stmt(self, s)
+        finally:
+            self.cur_e = prev
 
 
 class World:
@@ -340,6 +527,10 @@ class World:
     # ---- meanings, overridden
     def on_store(self, sk, key, old, new):
         pass
+
+    def on_access(self, sk, key, node):
+        """a field of the object is read / written through an lvalue that is not the member expression itself (pointer,
+        reference, element): the lock-state check of the member expressions does not see this access"""
 
     def on_guard(self, sk, v):
         pass
@@ -514,8 +705,9 @@ MAX_HAVOC = 2
 class SemWorld(World):
     """one call of a Semaphore member on (value_, delta, slack); whenever mutex_ is given up (cv wait, unlock ... lock, a second
     guard) the environment sets value_ to the next value of the script"""
-    def __init__(self, tu, vname, v0, script):
+    def __init__(self, tu, vname, v0, script, ls=None):
         World.__init__(self, tu)
+        self.ls = ls
         self.vkey = ("field", vname)
         self.shared[self.vkey] = v0
         self.script = script
@@ -552,14 +744,24 @@ class SemWorld(World):
         if key == self.vkey and old != new:
             self.log.append(("store", old, new, sk.fn, sk.cur))
 
+    def on_access(self, sk, key, node):
+        if key != self.vkey or self.ls is None or sk.fn.did not in self.ls.flows:
+            return                       # a lambda (predicate of a cv wait: runs under the lock of the wait)
+        if node is None:
+            raise dtable.Undecidable("%s: place of an access to the value through a pointer / reference is not known" % sk.here())
+        if any(y["k"] == "MemberExpr" and match.this_field(y) == key[1] for y in walk(node)):
+            return                       # the member expression is in the expression: the lockset check has looked at it
+        if self.ls.status(sk.fn, node) is not True:
+            self.log.append(("unlocked", sk.fn, node))
 
-def sem_runs(tu, fn, grid, vname):
+
+def sem_runs(tu, fn, grid, vname, ls=None):
     """all runs of fn over the grid and over the environment's scripts: yields (v0, d, s, script, log)"""
     for v0, d, s in grid:
         pending = [()]
         while pending:
             script = pending.pop()
-            w = SemWorld(tu, vname, v0, script)
+            w = SemWorld(tu, vname, v0, script, ls)
             sk = Sim(fn, tu, w, w.shared)
             for p, val in zip(fn.params, (d, s)):
                 sk.env[p["did"]] = val
@@ -614,14 +816,17 @@ def check_semaphore(ck, tu):
         found = {}             # (rule, sig) -> (msg, loc)
         takes = waits = adds = 0
         notes = {}             # notify node id -> (kind, fn, node)
-        for v0, d, s, script, log in sem_runs(tu, fn, grid, VAL):
+        for v0, d, s, script, log in sem_runs(tu, fn, grid, VAL, ls):
             need = d + s
             txt = call_text(fn, v0, d, s, script)
             first = next((ev for ev in log if ev[0] in ("wait", "store")), None)
             if taker:
                 blocked[(fn.name, v0, d, s)] = first is not None and first[0] == "wait"
             for i, ev in enumerate(log):
-                if ev[0] == "wait":
+                if ev[0] == "unlocked":
+                    found.setdefault(("SEM-LOCKSET", "%s/%d:value_:alias" % (fn.name, np)), (
+                        "value_ is accessed without holding mutex_ (through a reference / pointer to it)", ev[1].nloc(ev[2])))
+                elif ev[0] == "wait":
                     waits += 1
                     hv = log[i + 1]
                     if hv[2] == hv[3]:      # woken with nothing changed: whatever made the call wait still holds
@@ -1010,6 +1215,13 @@ class MutexWorld(BarrierWorld):
         if self.ls is not None and sk.fn.did in self.ls.flows and self.ls.status(sk.fn, e) is not True:
             self.cex("unlocked:" + what, "mutex_ is released before the action has run: released threads can overtake it" if what == "action" else
                      "the %s happens without mutex_ held" % what, sk, e)
+
+    def on_access(self, sk, key, node):
+        if self.ls is None or sk.fn.did not in self.ls.flows:
+            return                       # a lambda (predicate of a cv wait: runs under the lock of the wait)
+        if node is None:
+            raise dtable.Undecidable("%s: place of an access to the barrier's state through a pointer / reference is not known" % sk.here())
+        self.held(sk, node, "access of %s" % (self.names["counts_"] if key[0] in ("mem", "elem") else key[1] if key[0] == "field" else "the counters"))
 
     def on_notify(self, sk, e, kind):
         self.held(sk, e, "notify")
